@@ -71,7 +71,11 @@ def run(spec, out):
         calls.append(("e_clip", [np.shape(a)], None, {"lo": lo, "hi": hi}))
         return np.minimum(np.maximum(a, lo), hi)
 
-    REDUCE = [(r_sumsq, []), (r_scaledmax, ["scale"]), (r_powsum, ["power", "offset"])]
+    def r_tagged(x, axis, *, tag=None):
+        calls.append(("r_tagged", np.shape(x), axis, {"tag": tag}))
+        return np.min(x, axis=axis)
+
+    REDUCE = [(r_sumsq, []), (r_scaledmax, ["scale"]), (r_powsum, ["power", "offset"]), (r_tagged, ["tag"])]
     ELEM = [(e_lin, [], None), (e_scaled, ["scale"], 2), (e_clip, ["lo", "hi"], 1)]
     adapted = {}
 
@@ -111,7 +115,10 @@ def run(spec, out):
             out.sample(cj)
         # option values: a sequence of confusable values, each checked for value AND type
         seqs = [{}]
-        if optnames:
+        if optnames == ["tag"]:
+            # non-numeric option values: strings, None, containers, arrays
+            seqs = [{"tag": v} for v in rng.sample(["abc", None, (1, 2), [1, 2], np.array([1.0, 2.0]), {"k": 1}, "", 0], 4)]
+        elif optnames:
             vals = rng.sample(CONFUSABLE, 4)
             seqs = [{optnames[0]: v} for v in vals]
             if len(optnames) > 1:
@@ -130,7 +137,7 @@ def run(spec, out):
                 out.violation({"kind": "argument-modified", "what": what}, {**cj, "pos": pos}, f"adapted {fn.__name__}({desc!r}) modified argument {pos}")
             if r[0] == "exc":
                 e = r[1]
-                out.violation({"kind": "adapted-call-rejected", "adapter": kind, "exc": type(e).__name__, "risk": "multi-bracket-in-flatten" if "multi-bracket-in-flatten" in case.feats else "", **exc_site(e)},
+                out.violation({"kind": "adapted-call-rejected", "adapter": kind, "exc": type(e).__name__, "risk": G.risk(case), **exc_site(e)},
                               {**cj, "opts": {k: repr(v) for k, v in opts.items()}, "message": str(e)[:300]}, f"adapted {fn.__name__}({desc!r}, shapes={case.in_shapes}, {kw}, {opts}): {type(e).__name__}: {str(e)[:150]}")
                 break
             # recorded call(s): exactly one invocation of the user function per execution
@@ -142,8 +149,10 @@ def run(spec, out):
             exp_kw = {k: opts.get(k, None) for k in optnames if k in opts}
             for k, v in exp_kw.items():
                 got = kwseen.get(k)
-                if type(got) is not type(v) or got != v:
-                    out.violation({"kind": "option-not-forwarded-verbatim", "passed_kind": "numpy-scalar" if isinstance(v, np.generic) else "python-scalar"}, {**cj, "adapter": kind, "option": k, "passed": repr(v), "passed_type": type(v).__name__, "received": repr(got), "received_type": type(got).__name__},
+                same = type(got) is type(v) and (np.array_equal(got, v) if isinstance(v, np.ndarray) else got == v)
+                pk = "numpy-scalar" if isinstance(v, np.generic) else ("container" if isinstance(v, (list, tuple, dict, np.ndarray)) else "python-scalar")
+                if not same:
+                    out.violation({"kind": "option-not-forwarded-verbatim", "passed_kind": pk}, {**cj, "adapter": kind, "option": k, "passed": repr(v), "passed_type": type(v).__name__, "received": repr(got), "received_type": type(got).__name__},
                                   f"adapted {fn.__name__}: option {k}={v!r} ({type(v).__name__}) arrived as {got!r} ({type(got).__name__})")
                 else:
                     out.count("options_verbatim")
@@ -191,12 +200,12 @@ def run(spec, out):
             except Exception as e:
                 out.count("reference_failed")
                 continue
-            if any(isinstance(v, np.generic) for v in opts.values()):
+            if any(isinstance(v, (np.generic, np.ndarray, list, dict)) for v in opts.values()):
                 out.count("value_check_skipped_numpy_scalar_option")  # already reported by the verbatim monitor (KF-NUMPY-SCALAR-OPTION-AS-LITERAL)
                 continue
             d = X.compare(exp, r[1], inexact=True)
             if d is not None:
-                out.violation({"kind": "adapted-" + d[0], "adapter": kind, "risk": "multi-bracket-in-flatten" if "multi-bracket-in-flatten" in case.feats else ""}, {**cj, "detail": d[1], "opts": {k: repr(v) for k, v in opts.items()}},
+                out.violation({"kind": "adapted-" + d[0], "adapter": kind, "risk": G.risk(case)}, {**cj, "detail": d[1], "opts": {k: repr(v) for k, v in opts.items()}},
                               f"adapted {fn.__name__}({desc!r}, shapes={case.in_shapes}, {opts}): {d[1]}")
             else:
                 out.count("agree")
